@@ -78,6 +78,8 @@ static int model_fds(void)
 	return n;
 }
 
+static const char *el_timeout_member = ""; /* payload layer: the owners declare a timeout for their elements */
+
 static void connect_slot(int s)
 {
 	stalled[s] = false;
@@ -86,12 +88,12 @@ static void connect_slot(int s)
 	seen[s] = 0;
 	last_answered_rid[s][0] = 0;
 	if (s == O1) {
-		jx_sendf(conn[s], "{\"id\":\"a1\",\"method\":\"add\",\"params\":{\"path\":\"s1\",\"value\":0}}");
-		jx_sendf(conn[s], "{\"id\":\"a2\",\"method\":\"add\",\"params\":{\"path\":\"m1\"}}");
+		jx_sendf(conn[s], "{\"id\":\"a1\",\"method\":\"add\",\"params\":{\"path\":\"s1\",\"value\":0%s}}", el_timeout_member);
+		jx_sendf(conn[s], "{\"id\":\"a2\",\"method\":\"add\",\"params\":{\"path\":\"m1\"%s}}", el_timeout_member);
 		jx_settle();
 		elem_exists[0] = elem_exists[2] = true;
 	} else if (s == O2) {
-		jx_sendf(conn[s], "{\"id\":\"a3\",\"method\":\"add\",\"params\":{\"path\":\"s2\",\"value\":0}}");
+		jx_sendf(conn[s], "{\"id\":\"a3\",\"method\":\"add\",\"params\":{\"path\":\"s2\",\"value\":0%s}}", el_timeout_member);
 		jx_settle();
 		elem_exists[1] = true;
 	}
@@ -714,6 +716,10 @@ static void run_payloads(void)
 	static const char *const REPLYVAL[] = {NULL /* the default object */, "null", "false", "0", "\"\"", "[]", "{}"};
 	int rv = (behaviour == 2 || behaviour == 5) ? 0 : xp_choose((int)(sizeof(REPLYVAL) / sizeof(REPLYVAL[0])), XP_SCENARIO, "owner-reply-value");
 	reply_payload_override = REPLYVAL[rv];
+	/* timing: 0 the owner acts at once, elements without a timeout of their own; 1 / 2 the elements declare 0.1 s / 10 s and
+	 * the owner acts 1 ms before the deadline that follows from "the request's timeout, else the element's, else 5 s" */
+	int timing = xp_choose(3, XP_SCENARIO, "element-timeout-and-owner-delay");
+	el_timeout_member = timing == 1 ? ",\"timeout\":0.1" : timing == 2 ? ",\"timeout\":10" : "";
 	struct sim_opts o = {0};
 	jx_boot(&o);
 	for (int s = 0; s < NSLOT; s++) {
@@ -729,10 +735,16 @@ static void run_payloads(void)
 	}
 	do_request(K, target, idform, payload, TIMEOUTS[to]);
 	struct req *r = &reqs[nreqs - 1];
-	r->deadline = sim_now() + (to == 1 ? 2000000000ULL : to == 2 ? 250000000ULL : 5000000000ULL);
+	r->deadline = sim_now() + (to == 1 ? 2000000000ULL : to == 2 ? 250000000ULL : timing == 1 ? 100000000ULL : timing == 2 ? 10000000000ULL : 5000000000ULL);
 	last_action = "request";
 	jx_settle();
 	observe();
+	if (timing != 0 && r->st != R_FINAL && r->deadline > sim_now() + 1000000ULL) {
+		last_action = "wait-until-1ms-before-the-deadline";
+		sim_advance(r->deadline - sim_now() - 1000000ULL);
+		jx_settle();
+		observe();
+	}
 	struct action reply_res = {"owner:reply-result", 1, r->owner, 0, 0}, reply_err = {"owner:reply-error", 1, r->owner, 1, 0};
 	struct action dup = {"owner:reply-duplicate", 2, r->owner, 0, 0}, forged = {"owner:reply-forged(never-issued)", 3, r->owner, -1, 0};
 	struct action clock = {"clock->next-deadline", 4, 0, 0, 0}, leave = {"disconnect(owner)", 5, r->owner, 0, 0};
@@ -877,6 +889,6 @@ const struct driver drv_c03 = {
     .name = "c03",
     .property = "C03",
     .run = run,
-    .rule = "interleaving layer: every sequence of enabled actions up to the depth bound over {requests from 2 callers and a bystander to 2 owners, owner replies (result, error, duplicate, forged with another owner's live id / a never-issued id / a non-string id), clock advance to the next deadline, disconnect and reconnect of every slot}, judged after every action by a reference model of in-flight requests; payload layer: full product caller transport x target x payload x id form x timeout form x owner behaviour x value of the owner's result / error member (object, null, false, 0, empty string / array / object); sweep layer: 2..40 requests of two callers pending at one owner when the owner or a caller leaves (FIN / reset), then the owner answers everything, then everybody leaves; an execution is non-trivial when it ran to its final expiry phase with the ledger balanced; states = canonical model states (merged tier) or distinct (model state, remaining depth) pairs",
+    .rule = "interleaving layer: every sequence of enabled actions up to the depth bound over {requests from 2 callers and a bystander to 2 owners, owner replies (result, error, duplicate, forged with another owner's live id / a never-issued id / a non-string id), clock advance to the next deadline, disconnect and reconnect of every slot}, judged after every action by a reference model of in-flight requests; payload layer: full product caller transport x target x payload x id form x timeout form x owner behaviour x value of the owner's result / error member (object, null, false, 0, empty string / array / object) x {owner acts at once; elements declare a timeout of 0.1 s / 10 s and the owner acts 1 ms before the deadline that follows from request timeout, else element timeout, else 5 s}; sweep layer: 2..40 requests of two callers pending at one owner when the owner or a caller leaves (FIN / reset), then the owner answers everything, then everybody leaves; an execution is non-trivial when it ran to its final expiry phase with the ledger balanced; states = canonical model states (merged tier) or distinct (model state, remaining depth) pairs",
     .assumptions = "timeout and shutdown answers are only required to be error responses (their texts are not compared)|an immediate refusal is accepted only while the owner has at least 2^(ROUTING_TABLE_ORDER-1) requests in flight|a reply carrying a non-string id is a protocol violation of that owner: the daemon may drop it, which the model treats as that owner disconnecting|descriptor budget passes: a request may be refused for lack of descriptors only while connections plus requests in flight have used the budget up (one descriptor per connection and per request in flight is assumed to be enough)|a request to an owner that has stopped reading may be answered with an error at once (the forward failed); it must then never be answered again",
 };
